@@ -31,6 +31,11 @@ REAL = ['pyasn1.codec.{ber,cer,der}.decoder', 'pyasn1.codec.streaming', 'pyasn1.
 STUB = ['byte sources SimFile/SimPipe', 'stored-byte corruption injector', 'arrival schedule', 'step budget via sys.monitoring']
 
 ALPHABET = [0x00, 0x80, 0x81, 0x84, 0xff, 0x30, 0x31, 0x24, 0xa0, 0x1f, 0x7f, 0x02, 0x04, 0x05]
+# octets that are structural *inside* primitive contents (REAL first octet / exponent forms, BIT STRING pad
+# counts, OID continuation bits, sign bits, time and number characters)
+CONTENT_ALPHABET = [0x00, 0x01, 0x02, 0x03, 0x07, 0x08, 0x09, 0x40, 0x41, 0x42, 0x43, 0x7f, 0x80, 0x81, 0x82, 0x83,
+                    0xc0, 0xc3, 0xff, 0x2e, 0x30, 0x31, 0x2d, 0x5a]
+CONTENT_TAGS = [0x01, 0x02, 0x03, 0x04, 0x05, 0x06, 0x09, 0x0a, 0x0c, 0x13, 0x17, 0x18, 0x1e, 0x23, 0x24]
 MAX_DEPTH = 24
 
 
@@ -84,6 +89,11 @@ def systematic(tier):
         for si, spec in enumerate(specs):
             for first in ALPHABET:
                 out.append({'check': ID, 'exhaustive': True, 'decoder': dec, 'spec': spec, 'first': first})
+    # every content of length <= 3 over the content alphabet, for each universal primitive type
+    for dec in ('ber', 'cer', 'der'):
+        for t in CONTENT_TAGS:
+            for first in CONTENT_ALPHABET:
+                out.append({'check': ID, 'exhaustive': True, 'content_of': t, 'decoder': dec, 'spec': None, 'first': first})
     return out
 
 
@@ -263,12 +273,25 @@ def _exhaustive(plan):
     dec = U.decoder_module(plan['decoder'])
     spec = U.build_schema(plan['spec']) if plan['spec'] is not None else None
     first = plan['first']
-    strings = [bytes([first])]
-    for n in (1, 2):
-        for rest in itertools.product(ALPHABET, repeat=n):
-            strings.append(bytes((first,) + rest))
-    if first == ALPHABET[0]:
-        strings.append(b'')
+    if plan.get('content_of') is not None:
+        t = plan['content_of']
+        strings = []
+        for n in (0, 1, 2):
+            for rest in itertools.product(CONTENT_ALPHABET, repeat=n):
+                body = bytes((first,) + rest)
+                strings.append(bytes([t, len(body)]) + body)
+                if t in (0x23, 0x24):       # constructed string: the content is one primitive fragment
+                    inner = bytes([t & 0x1f, len(body)]) + body
+                    strings[-1] = bytes([t, len(inner)]) + inner
+        if first == CONTENT_ALPHABET[0]:
+            strings.append(bytes([t, 0]))
+    else:
+        strings = [bytes([first])]
+        for n in (1, 2):
+            for rest in itertools.product(ALPHABET, repeat=n):
+                strings.append(bytes((first,) + rest))
+        if first == ALPHABET[0]:
+            strings.append(b'')
     only = plan.get('only')
     ctr = {'exhaustive.strings': 0}
     trace = []
